@@ -48,7 +48,7 @@ var oracleC07 = oracle{
 				want = append([]ref.Hash{n.Hash}, want...)
 			}
 		}
-		if st.Op.K != "sub" && len(want) != 0 {
+		if st.Op.K != "sub" && st.Op.K != "growlag" && st.Op.K != "fullrace" && len(want) != 0 {
 			c.fail("maintenance-changed-tip", opClass(st), "a maintenance operation changed the reported tip")
 			return
 		}
@@ -58,6 +58,11 @@ var oracleC07 = oracle{
 			for j := 0; ok && j < len(want); j++ {
 				ok = hdr.RH(batch[j]) == want[j]
 			}
+			if st.Op.K == "fullrace" {
+				// several submissions with reorganisations in between: the batch is not one diff; what
+				// counts is that applying it rebuilds the reported chain (below)
+				ok = true
+			}
 			if !ok {
 				kind := "extension"
 				if pre != post && post.Parent != pre {
@@ -66,7 +71,7 @@ var oracleC07 = oracle{
 					kind = "no-change"
 				}
 				c.fail("stream-batch", opClass(st)+"|"+kind+fmt.Sprintf("|got%d-want%d", len(batch), len(want)),
-					fmt.Sprintf("subscriber %d received %s, expected %s (best chain %s -> %s)", i, labels(w, batch), labelsRef(w, want), pre.Label, post.Label))
+					fmt.Sprintf("subscriber %d received %s, expected %s (best chain %s -> %s)", i, clipList(labels(w, batch)), clipList(labelsRef(w, want)), pre.Label, post.Label))
 				return
 			}
 			s := w.Subs[i]
@@ -81,11 +86,19 @@ var oracleC07 = oracle{
 			}
 			c.n++
 			if !same {
-				c.fail("stream-replay-chain", opClass(st), fmt.Sprintf("chain rebuilt from the stream %s differs from the reported chain %s", labels(w, s.Chain), labels(w, rep)))
+				c.fail("stream-replay-chain", opClass(st), fmt.Sprintf("chain rebuilt from the stream %s differs from the reported chain %s", clipList(labels(w, s.Chain)), clipList(labels(w, rep))))
 				return
 			}
 		}
 	},
+}
+
+// clipList keeps the two ends of a long rendered list.
+func clipList(s string) string {
+	if len(s) <= 400 {
+		return s
+	}
+	return s[:180] + " ... " + s[len(s)-180:]
 }
 
 func labels(w *hdr.World, hs []bitcoin.Hash32) string {
